@@ -323,7 +323,7 @@ impl ConnectionManager {
         final(self).notified == old(self).notified && final(self).dial_log == old(self).dial_log && final(self).endpoint == old(self).endpoint, // @OBL ConnectionManager::add_peer::frame [C03] registering answers nobody and dials nobody
 """)
     t += C.fn(CM, 'impl ConnectionManager :: fn handle_connecting_result', 'ConnectionManager::handle_connecting_result', ['C03'],
-              transforms=[destructure_param, notify_log], spec="""
+              transforms=[notify_log], param_names=('output',), spec="""
     ensures
         output.connecting_result is Ok ==> final(self).active_peers.0.connections@.contains_key(output.connecting_result->Ok_0.peer), // @OBL handle_connecting_result::registered [C03] after a successful dial or admission the party reached is in the connected set
         output.connecting_result is Ok && output.maybe_oneshot is Some ==> ({
